@@ -54,7 +54,7 @@ def run(ctx):
             files.append((label + "-seq", p))
         for (nth, cores) in ([(6, "0-3"), (3, "0")] if ctx.quick else [(2, "0-1"), (4, "0-1"), (8, "0-7"), (16, "0-15"), (3, "0")]):
             base = ctx.path("conc_%s_%d" % (variant, nth))
-            cmd = ["taskset", "-c", cores, exe, "conc", base, str(nth), str(8 if ctx.quick else 24), str(120 if ctx.quick else 250), str(rng.randint(1, 10 ** 6))]
+            cmd = ["taskset", "-c", cores, exe, "conc", base, str(nth), str(8 if ctx.quick else 24), str(120 if ctx.quick else (250 if nth < 16 else 100)), str(rng.randint(1, 10 ** 6))]
             rc, out, to = run_driver(cmd, timeout=120)
             if to or rc != 0:
                 rc, out, to = run_driver(cmd, timeout=120)
@@ -65,7 +65,7 @@ def run(ctx):
             ctx.events += len(evs)
             for ci, ch in enumerate(traces.split_at(evs, "Epoch", 20000)):
                 files.append((label + "-conc", traces.write(ch, base + "_c%d.ndjson" % ci)))
-    res = ctx.validate_many("sync/AtomicsLin.tla", "AtomicsLin.cfg", [f for _, f in files], par=6, timeout=900)
+    res = ctx.validate_many("sync/AtomicsLin.tla", "AtomicsLin.cfg", [f for _, f in files], par=6, timeout=900 if ctx.quick else 3000)
     for (label, f), (_, ok, matched) in zip(files, res):
         if not ok:
             ev = None
